@@ -59,9 +59,11 @@ def build_labelled_mdp(case):
     return mdp, slab, alab
 
 
-def collect(learner, view, mdp_parts=None):
+def collect(learner, view, mdp_parts=None, policy_when="before"):
     """one train_on call of the given learner object on the MDP of `view` (or on the already built
-    and already used MDP object mdp_parts), with everything the certificate needs, mapped back by label"""
+    and already used MDP object mdp_parts), with everything the certificate needs, mapped back by label.
+    policy_when: "before" = the result's policy is read for every state right away; "after" / "half-after"
+    = no state / every other state is read now and late_read() fills in the rest later."""
     import numpy as np
     mdp, slab, alab = mdp_parts or build_labelled_mdp(view)
     sl, al = list(mdp.state_list), list(mdp.action_list)      # LABELS in msdm's order
@@ -74,18 +76,24 @@ def collect(learner, view, mdp_parts=None):
                  "end": sidx[ep["end"]]} for ep in res.event_listener_results]
     q = res.q_values
     qstates = list(q.keys())
-    pi = [[fj(res.policy.action_dist(s).prob(a)) for a in al] for s in sl]
-    pi_again = [[fj(res.policy.action_dist(s).prob(a)) for a in al] for s in sl]   # the policy object, used twice
     outside = [x for x in slab if x not in sidx]              # generator states msdm did not list
+
+    def read_policy(states):
+        return [[fj(res.policy.action_dist(s).prob(a)) for a in al] for s in states]
+
+    def read_q():
+        return [[fj(q[s][a]) if (s in q and a in q[s]) else None for a in al] for s in sl]
+
+    early = list(range(len(sl))) if policy_when == "before" else \
+        ([i for i in range(len(sl)) if i % 2 == 0] if policy_when == "half-after" else [])
+    pi_early = dict(zip(early, read_policy([sl[i] for i in early])))
     out = {
         # state_list / action_list are reported as generator ids in msdm's order
         "state_list": [state_id[s] for s in sl], "action_list": [label_id[a] for a in al],
         "labels_in_order": [repr(s) for s in sl] + ["|"] + [repr(a) for a in al],
         "q_states": [state_id.get(s, repr(s)) for s in qstates],
         "q_actions": [sorted(label_id.get(a, -1) for a in q[s].keys()) for s in qstates],
-        "Q": [[fj(q[s][a]) if (s in q and a in q[s]) else None for a in al] for s in sl],
-        "pi": pi, "pi_same_on_second_query": pi == pi_again,
-        "pi_outside": [[fj(res.policy.action_dist(s).prob(a)) for a in al] for s in outside],
+        "Q": read_q(),
         "episodes": episodes,
         "rewards": [[fj(x) for x in row] for row in learner.rewards.tolist()],
         "counts": [[fj(x) for x in row] for row in learner.s_a_counts.tolist()],
@@ -94,7 +102,23 @@ def collect(learner, view, mdp_parts=None):
         "n_states": int(learner.n_states), "n_actions": int(learner.n_actions),
         "max_reward_matrix": fj(float(np.max(mdp.reward_matrix))),
     }
-    return out, (mdp, slab, alab)
+
+    def late_read(after_later_training):
+        """(re)read the result: the policy for every state (states not read so far get their first query
+        now) and the Q dict; the certificate is given THIS reading"""
+        pi = read_policy(sl)
+        pi_again = read_policy(sl)                            # the policy object, used twice
+        out["pi"] = pi
+        out["pi_same_on_second_query"] = pi == pi_again
+        out["pi_early_equals_late"] = all(pi[i] == row for i, row in pi_early.items())
+        out["pi_outside"] = read_policy(outside)
+        if after_later_training:
+            out["Q_late"] = read_q()
+            out["policy_read"] = policy_when
+
+    if policy_when == "before":
+        late_read(False)
+    return out, (mdp, slab, alab), late_read
 
 
 def one(case, pl):
@@ -130,7 +154,8 @@ def one(case, pl):
         return RMAX(**kw)
 
     learner = make(Recorder)
-    out, parts = collect(learner, case)
+    when = (case.get("then") or {}).get("first_policy_queried", "before")
+    out, parts, late_read = collect(learner, case, policy_when=when)
     if case.get("default_listener_rerun") and case["seed"] is not None:
         # a second, fresh object of the class with the DEFAULT listener, on the already-used MDP object
         r2 = make().train_on(parts[0])
@@ -139,11 +164,12 @@ def one(case, pl):
         out["rerun"] = {"episode_rewards": [fj(x) for x in r2.event_listener_results.episode_rewards],
                         "Q": [[fj(r2.q_values[s][a]) for a in al] for s in sl]}
     if "then" in case:
-        # object reuse: the SAME RMAX object, second training (same MDP object, or a second problem with
-        # its own discount rate, rewards, rmax)
+        # object reuse: the SAME RMAX object, second training (same MDP object with another seed, or a
+        # second problem with its own discount rate, rewards, rmax)
         view = {k: v for k, v in case.items() if k != "then"}
         view.update(case["then"])
         learner.rmax = num(view["rmax"], view.get("ints_as_int", False))
+        learner.seed = None if view["seed"] is None else int(view["seed"])
         try:
             out["second"] = collect(learner, view, parts if view.get("same_mdp_object") else None)[0]
         except BaseException as e:
@@ -151,6 +177,8 @@ def one(case, pl):
                 raise
             out["second"] = {"error": type(e).__name__ + ": " + str(e)[:500],
                              "trace": traceback.format_exc()[-1500:]}
+        # the FIRST result, read (again) after the learner object has been trained on something else
+        late_read(True)
     return out
 
 
